@@ -56,6 +56,15 @@ class Run:
         self.notes.append(s)
 
 
+def apply_rule(run, r, db):
+    try:
+        r["fn"](run, db)
+    except AnchorLost as e:
+        run.fail("anchor:" + str(e), "anchor-lost: %s (rule could not locate the construct it checks)" % e)
+    except Exception as e:
+        run.fail("rule-crash", "rule crashed (treated as anchor loss, fail closed): %s\n%s" % (e, traceback.format_exc()[-1500:]))
+
+
 def load_known():
     try:
         with open(KNOWN) as fh:
@@ -106,6 +115,7 @@ def run_property(prop, tier, modname=None):
         write_evidence(run, mod, extra_violations=1, note="build failure in tags %s" % [t for t, _ in build_failures])
         print("VIOLATION property=%s replay=%s" % (prop, p))
         return 1
+    inl_dbs = {}
     from .model import check_status_order
     for t, d in dbs.items():
         run.rule = prop + ".S"
@@ -137,12 +147,31 @@ def run_property(prop, tier, modname=None):
             if t not in dbs:
                 continue
             run.tag = t
-            try:
-                r["fn"](run, dbs[t])
-            except AnchorLost as e:
-                run.fail("anchor:" + str(e), "anchor-lost: %s (rule could not locate the construct it checks)" % e)
-            except Exception as e:
-                run.fail("rule-crash", "rule crashed (treated as anchor loss, fail closed): %s\n%s" % (e, traceback.format_exc()[-1500:]))
+            start = len(run.obs)
+            apply_rule(run, r, dbs[t])
+            if any(not o["ok"] for o in run.obs[start:]) and not os.environ.get("VERIF_NO_INLINE"):
+                # A rule speaks about paths through one body.  Before reporting, ask the same question about the
+                # semantically identical program in which private synchronous helpers are spliced into their callers
+                # (rules/inline.py): a violation that disappears there was an artefact of where a block of code lives.
+                base = run.obs[start:]
+                for view in ("cons", "aggr"):
+                    key = (t, view)
+                    if key not in inl_dbs:
+                        try:
+                            inl_dbs[key] = DB(t, dbs[t].files, inline=view)
+                        except Exception:
+                            inl_dbs[key] = None
+                    if inl_dbs[key] is None or not inl_dbs[key].inlined:
+                        continue
+                    del run.obs[start:]
+                    apply_rule(run, r, inl_dbs[key])
+                    if all(o["ok"] for o in run.obs[start:]):
+                        for o in run.obs[start:]:
+                            o["view"] = "helpers-inlined:" + view
+                        run.note("%s [%s]: decided on the view with private helpers inlined (%s)" % (r["id"], t, view))
+                        break
+                    del run.obs[start:]
+                    run.obs.extend(base)
     run.tags_done = tags_needed
     if tier == "thorough" and not os.environ.get("VERIF_NO_SELFTEST") and build.REPO == "/repo":
         try:
